@@ -248,6 +248,7 @@ class Sym:
         self.locals = {}      # id of a local VarDecl -> current symbolic value
         self.ret = None
         self.wrote = False
+        self.reads = set()    # (byte offset, byte size) of every data member the body reads (for tie T2: read extents)
 
     def field_ref(self, n):
         """MemberExpr chain rooted at `this` -> (offset, size, typeinfo)"""
@@ -275,6 +276,7 @@ class Sym:
         return f[0], f[1], ti
 
     def read_field(self, off, size):
+        self.reads.add((off, size))
         return trunc(8 * size, ('Shr', self.mem, 8 * off) if off else self.mem)
 
     def write_field(self, off, size, val):
@@ -451,6 +453,7 @@ class Sym:
         if m[0] != self.cls:
             raise Untranslatable('callee of another class')
         sub.mem = self.mem
+        sub.reads = self.reads
         sub.run(m[2], args)
         self.mem = sub.mem
         self.wrote = self.wrote or sub.wrote
@@ -467,6 +470,7 @@ class Sym:
         f = Sym(self.W, self.tu, self.cls, self.layout, self.depth)
         f.mem, f.args, f.locals, f.ret, f.wrote = self.mem, dict(self.args), dict(self.locals), self.ret, self.wrote
         f.pure = getattr(self, 'pure', False)
+        f.reads = self.reads
         return f
 
     def run_stmts(self, stmts):
@@ -761,6 +765,7 @@ def main():
                     raise Untranslatable('return type ' + rt)
                 ret = (rw, trunc(rw, s.ret))
             methods_out.append((q, s.size, pw, s.mem if s.wrote else None, ret, mg))
+            READS[q] = sorted(s.reads)
         except Untranslatable as e:
             untranslatable.append((q, str(e)))
             sig_only_entry(W, tu, cls, layout, node, params, q, mg, sig_only, recs)
@@ -799,6 +804,13 @@ def main():
         if h and name in header_methods[h] and name not in ('getHeader',):
             WRAPPERS.append((cls + '::' + name, fwd.get(cls + '::' + name, ''), h + '::' + name))
     write_outputs(out, W, layout, recs, methods_out, untranslatable, forwards, sig_only)
+    # tie T2: guard / decision functions of layer B in the arithmetic IR (Cir.v)
+    import code2coq
+    text, done, lost = code2coq.write_gencode(out, W, layout, READS)
+    write_if_changed(os.path.join(out, 'GenCode.v'), text)
+    json.dump(dict(translated=[q for q, _ in done], lost=lost), open(os.path.join(out, 'code_index.json'), 'w'), indent=1)
+
+READS = {}
 
 def sig_only_entry(W, tu, cls, layout, node, params, q, mg, sig_only, recs):
     """a method whose body cannot be translated still gets a harness dispatch entry (from its signature alone), so that the layout
